@@ -249,6 +249,25 @@ func C12(t *rapid.T) *world.Scenario {
 		sc = C20(t)
 	}
 	sc.Prop = "C12"
+	// The rewrites below preserve meaning only for well-formed lists: a quoted string that
+	// never closes swallows whatever follows it, so moving it moves the damage. The
+	// malformed arguments of the C01 generator become a plain invalid token here.
+	for _, st := range sc.Steps {
+		if st.Op != "req" {
+			continue
+		}
+		for hi, kv := range st.Req.Header {
+			if kv[0] == "Cache-Control" {
+				v := kv[1]
+				for _, bad := range []string{`max-stale="5"0"`, `max-stale="5\"`, `max-stale="5`, `max-stale="`} {
+					if strings.Contains(v, bad) && !strings.Contains(v, bad+`"`) {
+						v = strings.Replace(v, bad, "max-stale=abc", 1)
+					}
+				}
+				st.Req.Header[hi] = H("Cache-Control", v)
+			}
+		}
+	}
 	// Values >= 2^31 are interchangeable only while every age in the history stays below
 	// 2^31 s: no other ten-digit number (Age, max-stale, ...) may be in play.
 	allowHuge := !hasLongNumber(sc)
